@@ -222,10 +222,14 @@ def make_callable(fd, log):
     ish = tuple(fd.get("ret") if fd.get("ret") is not None else fd.get("int") or ())
     aslist = fd.get("intlist", False)
     nullable = bool(fd.get("nullable"))
+    raises = bool(fd.get("raises"))
 
     def body(**kw):
         app = name + "(" + ",".join(f"{p}={mapsym.canon(kw[p])}" for p in params) + ")"
         log.add(app)
+        if raises and sum(map(ord, app)) % 3 == 0:     # as Corr/Run_C03.code_mod3
+            msg = "structural failure"
+            raise ZeroDivisionError(msg)
 
         def value(base):
             if not ish:
@@ -564,6 +568,8 @@ def _request(rng):
                 mapped = bool(f.get("spec") and f["spec"]["i"])
                 if not f.get("ret") and not f.get("int") and rng.random() < (0.35 if mapped else 0.15):
                     f["nullable"] = True
+            if rng.random() < 0.12:     # a user function that raises for some calls: the error class must agree
+                rng.choice(req["funcs"])["raises"] = True
             return req
 
 
@@ -596,8 +602,12 @@ def _probe(req):
         gens = real_gens(p, req)
         sched = Sched([])
         run = {"stor": {f["name"]: "dict" for f in req["funcs"]}, "stor_form": "str", "entry": "map"}
-        _call_map(p, req, run, None, CtlExecutor(sched))
-    return gens, sched.batches
+        try:
+            _call_map(p, req, run, None, CtlExecutor(sched))
+        except ZeroDivisionError:     # a raising structural function: later generations are never submitted
+            if not any(f.get("raises") for f in req["funcs"]):
+                raise
+    return gens, sched.batches + [0] * (len(gens) - len(sched.batches))
 
 
 def _probe_resume(req, gens, pre, fx):
@@ -798,10 +808,11 @@ def emit_case(c) -> str:
 
     resume = clist(["{| s_pre := %s; s_fx := %s; s_cfg := %s |}" % (clist([ofx(q) for q in s_["pre"]]), ofx(s_["fx"]),
                                                                    cfg(s_["run"])) for s_ in c.get("resume") or []])
+    fail = clist([cstr(f["name"]) for f in req["funcs"] if f.get("raises")])
     return ("{| q_funcs := %s; q_inputs := %s; q_internal := %s; q_gens := %s; q_runs := %s; q_none := %s; "
-            "q_resume := %s |}") % (
+            "q_resume := %s; q_fail := %s |}") % (
         clist([mapgen.func_lit(f) for f in req["funcs"]]), mapgen._env(req["inputs"]),
-        mapgen.shapes_lit(req.get("internal")), clist([_nats(g) for g in c["gens"]]), clist(runs), none, resume)
+        mapgen.shapes_lit(req.get("internal")), clist([_nats(g) for g in c["gens"]]), clist(runs), none, resume, fail)
 
 
 # ------------------------------------------------------------------ evidence helpers
@@ -843,6 +854,8 @@ def distribution(c):
         d["has stor_form " + k] = "yes"
     if any(f.get("nullable") for f in c["req"]["funcs"]):
         d["has None-returning function"] = "yes"
+    if any(f.get("raises") for f in c["req"]["funcs"]):
+        d["has raising function"] = "yes"
     for k in sorted({r["exec"] + " x " + "+".join(sorted(set(r["stor"].values()))) for r in runs
                      if r["exec"] in ("process", "default")}):
         d["has " + k] = "yes"
